@@ -801,6 +801,7 @@ def transportConnectModelRow (sc : List String) : List String :=
 def noTimeLimit (eff : List String) : List String :=
   eff.filter (fun e => !(e == "setDeadline" || e == "clearDeadline"))
 
+set_option maxRecDepth 32768 in
 /-- the extracted exit structure of `(*Dialer).connect` and `(*connGroup).connect` is the model's: same calls,
 closed on exactly the same paths, a connection returned exactly when the model reaches `ready` -/
 theorem connect_flows_are_the_model :
@@ -823,6 +824,7 @@ def underTimeLimit (effs : List String) : Bool :=
       else if e == "return:conn" then (st.1, st.2 && !st.1)
       else st) (false, true)).2
 
+set_option maxRecDepth 32768 in
 theorem connect_flows_run_under_the_time_limit :
     Gen.MuxFacts.dialerConnectFlow.all (fun (sc, eff) => !cflag sc "ctxHasDeadline" || underTimeLimit eff) = true ∧
     Gen.MuxFacts.transportConnectFlow.all (fun (_, eff) => underTimeLimit eff) = true := by
@@ -846,11 +848,16 @@ theorem time_limit_decides_nothing (c : Cfg) (b : Bool) (es : List Env) :
   have hstart : start { c with limit := b } = start c := by unfold start; rfl
   simp [run, hstart, hrun]
 
+/-- the configuration flags that only say whether (and how) the dial is limited in time -/
+def isLimitFlag (x : String) : Bool :=
+  x == "ctxHasDeadline=true" || x == "ctxHasDeadline=false" || x == "hasTimeout=true" || x == "hasTimeout=false" ||
+  x == "noDeadline=true" || x == "noDeadline=false"
+
+set_option maxRecDepth 16384 in
 theorem dialer_rows_agree_across_the_time_limit :
     Gen.MuxFacts.dialerConnectFlow.all (fun (sc, eff) =>
       Gen.MuxFacts.dialerConnectFlow.all (fun (sc', eff') =>
-        !(sc.filter (fun x => !(x == "ctxHasDeadline=true" || x == "ctxHasDeadline=false")) ==
-          sc'.filter (fun x => !(x == "ctxHasDeadline=true" || x == "ctxHasDeadline=false"))) ||
+        !(sc.filter (fun x => !isLimitFlag x) == sc'.filter (fun x => !isLimitFlag x)) ||
         noTimeLimit eff == noTimeLimit eff')) = true := by
   decide
 
